@@ -28,6 +28,8 @@ STRENGTHENED = {
     "C17-3": "C17: every service call gets a drawn request context (live / cancelled / expired); a dead-context call is judged by its aftermath only",
     "C05-6": "C05: sessions interleave puts of NEW keys by another client between the creation of the iterator and its Seek/Next calls",
     "C08-6": "C08: a window of steps under RLIMIT_FSIZE in the sequential variant (C03's I/O-fault sub-check, with the limit lifted mid-run, catches it too)",
+    "C03-5": "C03 buffer sub-check: value sizes whose log payload lands on/around the largest unfragmented record; a commit that fails is judged as a failed transaction (no trace, also after reopen)",
+    "C03-6": "C03: sixth sub-check, several goroutines put into ONE transaction while it is committed / rolled back",
     "C13-4": "C13: real Replica state machine with injected transient apply failures (error state -> recovery -> new stream)",
     "C15-4": "C15: primary with a pre-history (older log files in the directory) so that the ack path's retention pass has work to do",
 }
